@@ -17,15 +17,19 @@ EXTENDS Huffman, TLC, Json, IOUtils
 
 Rec == ndJsonDeserialize(IOEnv.TRACE)
 
-VARIABLES l, slots, skip, errs
-vars == <<l, slots, skip, errs>>
+VARIABLES l, slots, skip, errs, cleared
+vars == <<l, slots, skip, errs, cleared>>
 
 LensOf(ps) == [s \in {ps[i][1] : i \in 1..Len(ps)} |-> ps[CHOOSE i \in 1..Len(ps) : ps[i][1] = s][2]]
 
 \* a mismatch is printed at once (ERR line) and counted; `errs` is the count
-Err(e, why) == IF PrintT(<<"ERR", ToJson([line |-> l, run |-> e.run, why |-> why])>>) THEN errs + 1 ELSE errs
+\* `cleared`: slots that were cleared earlier in this run - a rejection on such a slot also
+\* means that clear() did not make the container fresh (C08)
+SlotOf(e) == IF "s" \in DOMAIN e THEN e.s ELSE IF "d" \in DOMAIN e THEN e.d ELSE 0
+Err(e, why) == IF PrintT(<<"ERR", ToJson([line |-> l, run |-> e.run, why |-> why,
+                                          afterclear |-> SlotOf(e) \in cleared])>>) THEN errs + 1 ELSE errs
 
-Init == l = 1 /\ slots = <<>> /\ skip = FALSE /\ errs = 0
+Init == l = 1 /\ slots = <<>> /\ skip = FALSE /\ errs = 0 /\ cleared = {}
 
 \* why a logged length table is not an optimal code for the spec's statistics
 CodeDefect(lens, counts) ==
@@ -86,6 +90,10 @@ Step(e) ==
 Next == /\ l <= Len(Rec)
         /\ l' = l + 1
         /\ Step(Rec[l])
+        /\ cleared' = IF Rec[l].ev = "reset" THEN {}
+                      ELSE IF Rec[l].ev = "clear" THEN cleared \cup {Rec[l].s}
+                      ELSE IF Rec[l].ev = "merge" THEN cleared \ {Rec[l].d}
+                      ELSE cleared
         /\ (l = Len(Rec)) => PrintT(<<"DONE", l, errs'>>)
 
 Spec == Init /\ [][Next]_vars
